@@ -13,7 +13,7 @@
 
    The obligations bound both by what was audited by hand.  A body made only of fmt.Sprintf / strings.Join over
    fields, range loops and calls of audited functions cannot panic and terminates, so a String method that is NOT in
-   [audited_ops] is total by construction; one that is has the listed operations and no more, each justified below
+   [audited_ops] has no partial operation of its own (its totality then rests on the admitted callees, see below); one that is has the listed operations and no more, each justified below
    and each executed by the direct oracle (C03 ops c03p / c03ft / c03rt / ext / p0200 ..., String() under recover after
    every successful Parse).  A change that adds a partial operation to any String method (e.g. `str[:len(str)-1]`
    on an empty list) breaks [tables_strings_ops_bounded] whether or not a generated input reaches it; removing
